@@ -114,7 +114,7 @@ def make_cases(hists: list[dict], tier: str, seed: int) -> tuple[list[dict], int
             if single and ops[0]["f"] == "set" and not ops[0]["bad"] and h["steps"][0]["res"] == "ok" and w == wraps[0]:
                 # the same request with the value spelled differently (surrounding blanks, comments)
                 forms = list(VALUE_FORMS)[1:]
-                for form in (forms if tier == "thorough" else rnd.sample(forms, 2) if rnd.random() < 0.2 else []):
+                for form in (rnd.sample(forms, 3) if tier == "thorough" else rnd.sample(forms, 2) if rnd.random() < 0.2 else []):
                     cases.append({"id": len(cases) + 1, "text": text, "wrap": w, "ops": [dict(ops[0], **op_texts(h["steps"][0]["op"], form))]})
             if not w and len(d0["layers"]) >= 1 and any(o["sel"] > 0 for o in ops):
                 # the same history on the document with an own-line comment after every `in' (layer trivia)
